@@ -7,6 +7,11 @@ def spec(tier, seed):
     generated = {"h263/src/decoder/state.rs": gen}
 
     jobs.append(Job("h263", "c04_cleanup_changes_nothing", 900, tagged=True, group="cleanup"))
+    from vf.props import c01_parser
+    pj, pgen = c01_parser.jobs(tier, seed, only_c04=True)
+    jobs += pj
+    for k, v in pgen.items():
+        generated[k] = generated.get(k, "") + v
 
     return {"jobs": jobs, "generated": generated, "functions": m.FUNCS + EXTRA_FUNCS, "stubs": m.STUBS, "rule": m.RULE + " " + RULE_EXTRA,
             "bounds": BOUNDS, "outside": m.OUTSIDE + OUTSIDE_EXTRA, "assumptions": m.ASSUME}
